@@ -463,7 +463,7 @@ def _is_evict_loop(w: ast.While, mapping: str, cap: Optional[str]) -> bool:
 def decode_cache_objects(ctx: Ctx, wrap: Class) -> None:
     rep = ctx.report
     prog = ctx.prog
-    f = prog.funcs.get("dds._api.set_store")
+    f = prog.func("dds._api.set_store")
     if f is None:
         raise AnchorError("dds._api.set_store not found")
 
